@@ -936,6 +936,8 @@ def run(ctx: Ctx) -> None:
 
 # ---------------------------------------------------------------------------
 WITNESSES = [
+    {"name": "seeded-C05-12", "file": "caches/base_full_cache.py", "old": "\nfrom numpy import append\nfrom numpy import array\nfrom numpy import concatenate\nfrom numpy import vstack\n\nfrom gemseo.caches.base_cache import BaseCache\nfrom gemseo.caches.cache_entry import CacheEntry\nfrom gemseo.caches.utils import hash_data\nfrom gemseo.utils.data_conversion import flatten_nested_bilevel_dict\nfrom gemseo.utils.ggobi_export import save_data_arrays_to_xml\nfrom gemseo.utils.locks import synchronized\nfrom gemseo.utils.locks import synchronized_hashes\nfrom gemseo.utils.multiprocessing.manager import get_multi_processing_manager\n\nif TYPE_CHECKING:\n    from collections.abc import Iterable\n    from collections.abc import Iterator\n    from multiprocessing.managers import DictProxy\n    from multiprocessing.sharedctypes import Synchronized\n    from multiprocessing.synchronize import RLock as RLockType\n\n    from gemseo.typing import IntegerArray\n    from gemseo.typing import JacobianData\n    from gemseo.typing import StrKeyMapping\n\n\nclass BaseFullCache(BaseCache):\n    \"\"\"Base cache to store all the data, either in memory or on the disk.\n\n    See Also:\n        :class:`.MemoryFullCache`: store all the data in memory.\n        :class:`.HDF5Cache`: store all the data in an HDF5 file.\n    \"\"\"\n\n    _JACOBIAN_SEPARATOR: ClassVar[str] = \"!d$_$d!\"\n    \"\"\"The string separating the input and output names in a derivative name.\n\n    E.g. ``\"output!d$_$d!input\"``.\n    \"\"\"\n\n    lock: RLockType\n    \"\"\"The lock used for both multithreading and multiprocessing.\n\n    Ensure safe multiprocessing and multithreading concurrent access to the cache.\n    \"\"\"\n\n    lock_hashes: RLockType\n    \"\"\"The lock used for both multithreading and multiprocessing.\n\n    Ensure safe multiprocessing and multithreading concurrent access to the cache.\n    \"\"\"\n\n    _hashes_to_indices: DictProxy[int, IntegerArray]\n    \"\"\"The indices associated with the hashes.\"\"\"\n\n    _max_index: Synchronized[int]\n    \"\"\"The maximum index of the data stored in the cache.\"\"\"\n\n    _last_accessed_index: Synchronized[int]\n    \"\"\"The index of the last accessed data.\"\"\"\n\n    def __init__(  # noqa: D107\n        self,\n        tolerance: float = 0.0,\n        name: str = \"\",\n    ) -> None:\n        super().__init__(tolerance, name)\n        self.lock_hashes = RLock()\n        self._hashes_to_indices = get_multi_processing_manager().dict()\n        self._max_index = cast(\"Synchronized[int]\", Value(\"i\", 0))\n        self._last_accessed_index = cast(\"Synchronized[int]\", Value(\"i\", 0))\n        self.lock = self._set_lock()\n\n    @abstractmethod\n    def _set_lock(self) -> RLockType:\n        \"\"\"Set a lock for multithreading.\n\n        Either from an external object or internally by using RLock().\n        \"\"\"\n\n    def __ensure_input_data_exists(\n        self,\n        input_data: StrKeyMapping,\n    ) -> bool:\n        \"\"\"Ensure ``input_data`` associated with ``data_hash`` exists.\n\n        If ``input_data`` is cached,\n        return ``True``.\n        If ``data_hash`` is missing,\n        store this hash and index ``input_data`` before caching later at this index.\n        If ``data_hash`` exists but ``input_data`` is not cached,\n        add ``data_hash`` and then index ``input_data``.\n\n        Args:\n            input_data: The input data to cache.\n\n        Returns:\n            Whether ``input_data`` was missing.\n        \"\"\"\n        data_hash = hash_data(input_data)\n\n        # Check if there is an entry with this hash in the cache.\n        indices = self._hashes_to_indices.get(data_hash)\n\n        # If no, initialize a new entry.\n        if indices is None:\n            self._max_index.value += 1\n            self._last_accessed_index.value = self._max_index.value\n            self._hashes_to_indices[data_hash] = array([self._max_index.value])\n            self._initialize_entry(self._max_index.value)\n            return True\n\n        # If yes, look if there is a corresponding input data equal to ``input_data``.\n        for index in indices:\n            if self.compare_dict_of_arrays(\n                input_data, self._read_data(index, self.Group.INPUTS)\n            ):\n                # The input data is already cached => we don't store it again.\n                self._last_accessed_index.value = index\n                return False\n\n        # If there is no an input data equal ``input_data``,\n        # update the indices related to the ``data_hash``.\n        self._max_index.value += 1\n        self._last_accessed_index.value = self._max_index.value\n        self._hashes_to_indices[data_hash] = append(indices, self._max_index.value)\n        self._initialize_entry(self._max_index.value)\n", "new": "\nfrom numpy import array\nfrom numpy import concatenate\nfrom numpy import vstack\n\nfrom gemseo.caches.base_cache import BaseCache\nfrom gemseo.caches.cache_entry import CacheEntry\nfrom gemseo.caches.utils import hash_data\nfrom gemseo.utils.data_conversion import flatten_nested_bilevel_dict\nfrom gemseo.utils.ggobi_export import save_data_arrays_to_xml\nfrom gemseo.utils.locks import synchronized\nfrom gemseo.utils.locks import synchronized_hashes\nfrom gemseo.utils.multiprocessing.manager import get_multi_processing_manager\n\nif TYPE_CHECKING:\n    from collections.abc import Iterable\n    from collections.abc import Iterator\n    from multiprocessing.managers import DictProxy\n    from multiprocessing.sharedctypes import Synchronized\n    from multiprocessing.synchronize import RLock as RLockType\n\n    from gemseo.typing import IntegerArray\n    from gemseo.typing import JacobianData\n    from gemseo.typing import StrKeyMapping\n\n\nclass BaseFullCache(BaseCache):\n    \"\"\"Base cache to store all the data, either in memory or on the disk.\n\n    See Also:\n        :class:`.MemoryFullCache`: store all the data in memory.\n        :class:`.HDF5Cache`: store all the data in an HDF5 file.\n    \"\"\"\n\n    _JACOBIAN_SEPARATOR: ClassVar[str] = \"!d$_$d!\"\n    \"\"\"The string separating the input and output names in a derivative name.\n\n    E.g. ``\"output!d$_$d!input\"``.\n    \"\"\"\n\n    lock: RLockType\n    \"\"\"The lock used for both multithreading and multiprocessing.\n\n    Ensure safe multiprocessing and multithreading concurrent access to the cache.\n    \"\"\"\n\n    lock_hashes: RLockType\n    \"\"\"The lock used for both multithreading and multiprocessing.\n\n    Ensure safe multiprocessing and multithreading concurrent access to the cache.\n    \"\"\"\n\n    _hashes_to_indices: DictProxy[int, IntegerArray]\n    \"\"\"The indices associated with the hashes.\"\"\"\n\n    _max_index: Synchronized[int]\n    \"\"\"The maximum index of the data stored in the cache.\"\"\"\n\n    _last_accessed_index: Synchronized[int]\n    \"\"\"The index of the last accessed data.\"\"\"\n\n    def __init__(  # noqa: D107\n        self,\n        tolerance: float = 0.0,\n        name: str = \"\",\n    ) -> None:\n        super().__init__(tolerance, name)\n        self.lock_hashes = RLock()\n        self._hashes_to_indices = get_multi_processing_manager().dict()\n        self._max_index = cast(\"Synchronized[int]\", Value(\"i\", 0))\n        self._last_accessed_index = cast(\"Synchronized[int]\", Value(\"i\", 0))\n        self.lock = self._set_lock()\n\n    @abstractmethod\n    def _set_lock(self) -> RLockType:\n        \"\"\"Set a lock for multithreading.\n\n        Either from an external object or internally by using RLock().\n        \"\"\"\n\n    def __ensure_input_data_exists(\n        self,\n        input_data: StrKeyMapping,\n    ) -> bool:\n        \"\"\"Ensure ``input_data`` associated with ``data_hash`` exists.\n\n        If ``input_data`` is cached,\n        return ``True``.\n        If ``data_hash`` is missing,\n        store this hash and index ``input_data`` before caching later at this index.\n        If ``data_hash`` exists but ``input_data`` is not cached,\n        add ``data_hash`` and then index ``input_data``.\n\n        Args:\n            input_data: The input data to cache.\n\n        Returns:\n            Whether ``input_data`` was missing.\n        \"\"\"\n        data_hash = hash_data(input_data)\n\n        # Look if there is an entry with this hash in the cache\n        # whose input data is equal to ``input_data``.\n        for index in self._hashes_to_indices.get(data_hash, ()):\n            if self.compare_dict_of_arrays(\n                input_data, self._read_data(index, self.Group.INPUTS)\n            ):\n                # The input data is already cached => we don't store it again.\n                self._last_accessed_index.value = index\n                return False\n\n        # Otherwise, initialize a new entry and index it with ``data_hash``.\n        self._max_index.value += 1\n        self._last_accessed_index.value = self._max_index.value\n        self._hashes_to_indices[data_hash] = array([self._max_index.value])\n        self._initialize_entry(self._max_index.value)\n", "expect": "5.12", "note": "Refactoring of BaseFullCache.__ensure_input_data_exists merges the 'new hash' an"},
+    {"name": "seeded-C05-11", "file": "caches/base_cache.py", "old": "            raise ValueError(msg)\n        self._tolerance = value\n", "new": "            raise ValueError(msg)\n        if value == self._tolerance:\n            # Nothing changes: no need to notify the processes.\n            return\n        self._tolerance = value\n", "expect": "5.13", "note": "Cache tolerance setter skips the post-set hook when the value is unchanged, so a"},
     {"name": "hash-bucket-overwritten", "file": BFC, "old": "        self._hashes_to_indices[data_hash] = append(indices, self._max_index.value)", "new": "        self._hashes_to_indices[data_hash] = array([self._max_index.value])", "expect": "5.12"},
     {"name": "seeded-C05-9", "file": "utils/derivatives/derivatives_approx.py", "old": "        self.discipline = discipline\n        self.approx_method = approx_method\n        self.step = step\n        self.generator = self.generator_class(discipline)\n        self.func = None\n        self.approximator = None\n        self.auto_steps = {}\n        self.__par_args = {\n            \"n_processes\": n_processes,\n            \"use_threading\": use_threading,\n            \"wait_time_between_fork\": wait_time_between_fork,\n        }\n        self.__parallel = parallel\n\n    def _create_approximator(\n        self,\n        output_names: Sequence[str],\n        input_names: Sequence[str],\n    ) -> None:\n        \"\"\"Create the Jacobian approximation class.\n\n        Args:\n            input_names: The names of the inputs used to differentiate the outputs.\n            output_names: The names of the outputs to be differentiated.\n\n        Raises:\n            ValueError: If the Jacobian approximation method is unknown.\n        \"\"\"\n        self.func = self.generator.get_function(input_names, output_names)\n        self.approximator = GradientApproximatorFactory().create(\n            self.approx_method,\n            self.func.evaluate,\n            step=self.step,\n            parallel=self.__parallel,\n            **self.__par_args,\n        )\n\n    def auto_set_step(\n        self,\n        output_names: Sequence[str],\n        input_names: Sequence[str],\n        print_errors: bool = True,\n        numerical_error: float = EPSILON,\n    ) -> tuple[ndarray, dict[str, ndarray]]:\n        r\"\"\"Compute the optimal step.\n\n        Require a first evaluation of the perturbed functions values.\n\n        The optimal step is reached when the truncation error\n        (cut in the Taylor development),\n        and the numerical cancellation errors\n        (round-off when doing :math:`f(x+step)-f(x))` are equal.\n\n        Args:\n            input_names: The names of the inputs used to differentiate the outputs.\n            output_names: The names of the outputs to be differentiated.\n            print_errors: Whether to log the cancellation\n                and truncation error estimates.\n            numerical_error: The numerical error\n                associated to the calculation of :math:`f`.\n                By default, Machine epsilon (appx 1e-16),\n                but can be higher.\n                when the calculation of :math:`f` requires a numerical resolution.\n\n        See Also:\n            https://en.wikipedia.org/wiki/Numerical_differentiation\n            and *Numerical Algorithms and Digital Representation*,\n            Knut Morken, Chapter 11, \"Numerical Differentiation\"\n\n        Returns:\n            The Jacobian of the function.\n        \"\"\"\n        self._create_approximator(output_names, input_names)\n\n        x_vect = self._prepare_xvect(\n            input_names, self.discipline.io.input_grammar.defaults\n        )\n        with self.__set_zero_cache_tol():\n            steps_opt, errors = self.approximator.compute_optimal_step(\n                x_vect, numerical_error=numerical_error\n            )\n\n        if print_errors:\n            LOGGER.info(\n                \"Set optimal step for finite differences. \"\n                \"Estimated approximation errors =\"\n            )\n            LOGGER.info(errors)\n\n        data = self.discipline.io.input_grammar.defaults or self.discipline.io.data\n        names_to_slices = (\n            self.discipline.io.input_grammar.data_converter.compute_names_to_slices(\n                input_names,\n                data,\n            )[0]\n        )\n\n        self.auto_steps = (\n            self.discipline.io.input_grammar.data_converter.convert_array_to_data(\n                steps_opt, names_to_slices\n            )\n        )\n\n        return errors, self.auto_steps\n\n    @contextmanager\n    def __set_zero_cache_tol(self) -> None:\n        \"\"\"A context manager to temporary set the discipline cache tolerance to zero.\"\"\"\n        if self.discipline.cache is not None:\n            old_cache_tol = self.discipline.cache.tolerance\n            self.discipline.cache.tolerance = 0.0\n            yield\n            self.discipline.cache.tolerance = old_cache_tol\n        else:\n", "new": "        self.discipline = discipline\n        self.__cache = discipline.cache\n        self.approx_method = approx_method\n        self.step = step\n        self.generator = self.generator_class(discipline)\n        self.func = None\n        self.approximator = None\n        self.auto_steps = {}\n        self.__par_args = {\n            \"n_processes\": n_processes,\n            \"use_threading\": use_threading,\n            \"wait_time_between_fork\": wait_time_between_fork,\n        }\n        self.__parallel = parallel\n\n    def _create_approximator(\n        self,\n        output_names: Sequence[str],\n        input_names: Sequence[str],\n    ) -> None:\n        \"\"\"Create the Jacobian approximation class.\n\n        Args:\n            input_names: The names of the inputs used to differentiate the outputs.\n            output_names: The names of the outputs to be differentiated.\n\n        Raises:\n            ValueError: If the Jacobian approximation method is unknown.\n        \"\"\"\n        self.func = self.generator.get_function(input_names, output_names)\n        self.approximator = GradientApproximatorFactory().create(\n            self.approx_method,\n            self.func.evaluate,\n            step=self.step,\n            parallel=self.__parallel,\n            **self.__par_args,\n        )\n\n    def auto_set_step(\n        self,\n        output_names: Sequence[str],\n        input_names: Sequence[str],\n        print_errors: bool = True,\n        numerical_error: float = EPSILON,\n    ) -> tuple[ndarray, dict[str, ndarray]]:\n        r\"\"\"Compute the optimal step.\n\n        Require a first evaluation of the perturbed functions values.\n\n        The optimal step is reached when the truncation error\n        (cut in the Taylor development),\n        and the numerical cancellation errors\n        (round-off when doing :math:`f(x+step)-f(x))` are equal.\n\n        Args:\n            input_names: The names of the inputs used to differentiate the outputs.\n            output_names: The names of the outputs to be differentiated.\n            print_errors: Whether to log the cancellation\n                and truncation error estimates.\n            numerical_error: The numerical error\n                associated to the calculation of :math:`f`.\n                By default, Machine epsilon (appx 1e-16),\n                but can be higher.\n                when the calculation of :math:`f` requires a numerical resolution.\n\n        See Also:\n            https://en.wikipedia.org/wiki/Numerical_differentiation\n            and *Numerical Algorithms and Digital Representation*,\n            Knut Morken, Chapter 11, \"Numerical Differentiation\"\n\n        Returns:\n            The Jacobian of the function.\n        \"\"\"\n        self._create_approximator(output_names, input_names)\n\n        x_vect = self._prepare_xvect(\n            input_names, self.discipline.io.input_grammar.defaults\n        )\n        with self.__set_zero_cache_tol():\n            steps_opt, errors = self.approximator.compute_optimal_step(\n                x_vect, numerical_error=numerical_error\n            )\n\n        if print_errors:\n            LOGGER.info(\n                \"Set optimal step for finite differences. \"\n                \"Estimated approximation errors =\"\n            )\n            LOGGER.info(errors)\n\n        data = self.discipline.io.input_grammar.defaults or self.discipline.io.data\n        names_to_slices = (\n            self.discipline.io.input_grammar.data_converter.compute_names_to_slices(\n                input_names,\n                data,\n            )[0]\n        )\n\n        self.auto_steps = (\n            self.discipline.io.input_grammar.data_converter.convert_array_to_data(\n                steps_opt, names_to_slices\n            )\n        )\n\n        return errors, self.auto_steps\n\n    @contextmanager\n    def __set_zero_cache_tol(self) -> None:\n        \"\"\"A context manager to temporary set the discipline cache tolerance to zero.\"\"\"\n        cache = self.__cache\n        if cache is not None:\n            old_cache_tol = cache.tolerance\n            cache.tolerance = 0.0\n            yield\n            cache.tolerance = old_cache_tol\n        else:\n", "expect": "5.11", "note": "DisciplineJacApprox zeroes the tolerance of the cache captured at construction, "},
     {"name": "hit-converts-inside-the-stored-entry", "file": BD, "old": "            cache_output = cache_entry.outputs.copy()\n", "new": "            cache_output = cache_entry.outputs\n", "expect": "5.9"},
